@@ -72,6 +72,13 @@ CORPUS = [
     ("tstruct12_last", TStruct([F(None, L("u8")) for _ in range(11)] + [F(None, named(("x", L("u8")),))])),
     ("result_uneven", Named2("Result", [named(("a", L("u8")),), named(("history", Array(11, L("u8"))),)])),
     ("arr_huge", Array(2**63 + 1, L("unit"))),
+    ("arr_wide2", Array(70000, Array(2, L("unit")))),
+    ("access_deny", Struct([F("inner", Struct([F("val", L("u8"), get=True, get_mut=True, validate=True,
+                                                  deny={"deserialize": "read-only", "ref_any": "opaque"}),
+                                                F("locked", L("bool"))]), get=True, get_mut=True),
+                            F("e", Enum([V("A", L("u8"), attrs=F(None, None, get=True, get_mut=True, validate=True,
+                                                                 deny={"serialize": "no ser", "mut_any": "no mut"})),
+                                         V("B", L("u8"))]))])),
     ("deep", named(("a", named(("b", named(("c", named(("d", named(("e", L("u8")), ("f", L("u8")))),)),)),)),
                    ("longname_with_many_bytes", Array(10, L("u8"))), ("z", L("u8")))),
     ("values", named(("u8", L("u8")), ("u64", L("u64")), ("i8", L("i8")), ("i64", L("i64")), ("b", L("bool")),
